@@ -986,12 +986,18 @@ class KconfigGrammar:
                 self.parser.kconfig.report.add_ignore_line(line)
 
             quote = None  # Tracks if we're inside a quote
+            escaped = False  # Previous character was a backslash inside a quote
             result = []
 
             for char in line:
                 if quote:
-                    # Close the quote if we encounter a matching quote character
-                    if char == quote:
+                    if escaped:
+                        # Character after a backslash (e.g. an escaped quote) never closes the quote
+                        escaped = False
+                    elif char == "\\":
+                        escaped = True
+                    elif char == quote:
+                        # Close the quote if we encounter a matching quote character
                         quote = None
                     result.append(char)
                 elif char in {'"', "'"}:
